@@ -55,13 +55,29 @@ func init() {
 		ExtraCfg: func(tier string) string { return "  Tier = \"" + tier + "\"\n" }}
 }
 
+// twoDocs keeps the C10 layouts in which two documents of one run write the same relative reference, declare
+// same-named definitions or hold textually identical allOf branches with different targets (the form whose
+// as-is behaviour needs Trace_C10's declaration-table model is left to C10).
+func twoDocs(u *rt.Unit) bool {
+	c, f := u.Str("ctx"), u.Str("form")
+	return (c == "two" || c == "twoall" || c == "collide") && f != "samedef"
+}
+
+// twoDocsDefaults: the same layouts for the leaves that carry a default (C09 judges the decoded values)
+func twoDocsDefaults(u *rt.Unit) bool {
+	k := u.Str("kind")
+	return twoDocs(u) && (k == "objdef" || k == "objdef2" || k == "oreqd" || k == "oreq")
+}
+
+var c10More = rt.Extra{Module: "MC_C10", ExtraCfg: tierCfg, Keep: twoDocs}
+
 func init() {
-	families["C04"] = &rt.Family{Prop: "C04", Module: "MC_C04", PackSize: 8,
+	families["C04"] = &rt.Family{Prop: "C04", Module: "MC_C04", PackSize: 8, More: []rt.Extra{c10More},
 		Rule: "units = every subset of {a,b,c,n,zz} as `required` of an object with properties a:integer, b:[string,null], c:integer with default, n:nested object with its own required key (zz undeclared) x 9 container contexts (root, property, array item, definition, items of an array definition, 3 allOf shapes incl. a required-only branch and a $ref branch, anyOf); documents = every assignment of absent/present/null to the keys (108 per unit, 180 for anyOf). distinct_nontrivial = distinct (unit, document) pairs with a definite reference verdict"}
 }
 
 func init() {
-	families["C03"] = &rt.Family{Prop: "C03", Module: "MC_C03", PackSize: 8,
+	families["C03"] = &rt.Family{Prop: "C03", Module: "MC_C03", PackSize: 8, More: []rt.Extra{c10More},
 		Rule: "units = 14 typed position kinds (string, integer, number, boolean, array of integer, object, 5 string formats, 3 non-string types carrying a string format) x nullable x 7 contexts (required/optional property, array item depth 1/2, definition, nested property, typed additionalProperties value); documents = 21 JSON value shapes of every type (null, booleans, integral and non-integral numbers, plain and format strings, arrays, objects) at the position. distinct_nontrivial = distinct (unit, document) pairs with a definite reference verdict"}
 }
 
@@ -78,6 +94,7 @@ func init() {
 
 func init() {
 	families["C09"] = &rt.Family{Prop: "C09", Module: "MC_C09", PackSize: 1, Judge: "value", JudgeBuild: true,
+		More: []rt.Extra{{Module: "MC_C10", ExtraCfg: tierCfg, Keep: twoDocsDefaults}},
 		Rule: "units = 19 property kinds (integer, number, string with quote/backslash/non-ASCII, boolean, nullable integer/string, typed/untyped/mixed enum, arrays of string/integer, nested array, object with required fields inline and via $ref, object with optional fields, typed additionalProperties map, date, date-time, sized integer) x 2 defaults x required flag; documents = property absent, null, present with another value, present with the default. Judged: verdict, decoded value (absent/null => default, present => document value), re-marshalled value, and that the emitted package compiles. distinct_nontrivial = distinct (unit, document) pairs with a definite reference verdict"}
 }
 
@@ -172,8 +189,10 @@ func init() {
 			{Module: "MC_C04", Frac: frac(0.3, 1)}, {Module: "MC_C08", Frac: frac(0.15, 1)}, {Module: "MC_C11", Frac: frac(0.15, 1)},
 			{Module: "MC_C06", ExtraCfg: maxStr(1, 1), Frac: frac(0.3, 1)}, {Module: "MC_C07", ExtraCfg: tierCfg, Frac: frac(0.15, 1)},
 			{Module: "MC_C05", Frac: frac(0.01, 0.2)}, {Module: "MC_C15", ExtraCfg: tierCfg, Frac: frac(0.05, 0.3)},
+			{Module: "MC_C10", ExtraCfg: tierCfg, Frac: frac(0.5, 1)},
+			{Module: "MC_C10R", ExtraCfg: func(t string) string { return "  Tier = \"" + t + "\"\n  NDefs = 2\n  RD = {}\n" }, Frac: frac(0.5, 1)},
 		},
-		Rule: "programs = C01's own units (11 hostile description / title texts x 5 positions, goJSONSchema extension objects of 4 kinds x 4 positions, patterns with quote / backslash class / backtick; each under 4 option sets: default, --extra-imports, --only-models, --min-sized-ints) plus the units of every other family (seeded samples of the large ones); every program the generator emits without error must be formatted by the generator, be gofmt-stable and compile against exactly its imports (go build: undeclared and unused identifiers / imports, ill-typed literals are errors). Compile failures the specification predicts per unit (field nobuild) are the recorded findings. distinct_nontrivial counts programs (documents are not judged)"}
+		Rule: "programs = C01's own units (11 hostile description / title texts x 5 positions, goJSONSchema extension objects of 4 kinds x 4 positions, patterns with quote / backslash class / backtick, definitions of 21 kinds that nothing / only an interface{} referrer / one or two properties / array items refer to; each under 4 option sets: default, --extra-imports, --only-models, --min-sized-ints) plus the multi-document forms and reference graphs of C10 and the units of every other family (seeded samples of the large ones); every program the generator emits without error must be formatted by the generator, be gofmt-stable and compile against exactly its imports (go build: undeclared and unused identifiers / imports, ill-typed literals are errors). Compile failures the specification predicts per unit (field nobuild) are the recorded findings. distinct_nontrivial counts programs (documents are not judged)"}
 }
 
 func hasMult(u *rt.Unit) bool {
